@@ -75,6 +75,20 @@ CHECKS += [
            "from t"),
 ]
 
+CHECKS += [
+ dict(id='C20',
+      text="Proof for ALL property sets: the real check_equation_array_properties is executed symbolically for every one "
+           "of the 309 shipped Equation subclasses (found on every run) against particle arrays whose property sets are "
+           "symbolic (one membership boolean per relevant name + 'any other'), dest also listed as a source: a missing "
+           "explicit d_/s_ name, a missing name needed through a precomputed symbol (closure computed independently from "
+           "precomputed_symbols()), a misspelt dest/source => RuntimeError naming it; the same for every stage method of "
+           "the shipped IntegratorStep subclasses on two arrays; the check runs before MegaGroup/code generation. The "
+           "implicit clause failed on the pinned tree and was repaired (fix: 7fb24fa).",
+      note="getfullargspec = AST parameter names (MRO resolved); Group.get_array_names assumed to return the precomputed "
+           "closure (validated natively for all 309 classes once, checked in C02); message contents checked only for the "
+           "array-name and stepper-class cases; generated code itself not examined"),
+]
+
 NOT_APPLICABLE = [
  dict(property_id='C11', reason="round trip runs through numpy.savez/numpy.load/h5py and the compiled ParticleArray constructor; the repository code in between is dict/bytes glue no contract within reach can express (DESIGN.md section 4)"),
  dict(property_id='C12', reason="finite enumeration of scheme options decided by executing scheme code, generating and running; no function-level contract states it (DESIGN.md section 4)"),
@@ -82,7 +96,7 @@ NOT_APPLICABLE = [
 ]
 # properties not yet under a registered check are listed as not applicable
 # "pending" until their check lands, so the manifest is valid at all times
-PENDING = ['C01','C02','C03','C04','C05','C06','C07','C14','C16','C17','C20']
+PENDING = ['C01','C02','C03','C04','C05','C06','C07','C14','C16','C17']
 for p in PENDING:
     if p not in [c['id'] for c in CHECKS]:
         NOT_APPLICABLE.append(dict(property_id=p, reason="check not registered yet in this commit (work in progress, see DESIGN.md section 3 for the planned contracts)"))
